@@ -29,5 +29,27 @@ if [ -d "canaries/$PROP" ]; then
     rm -rf "$scratch"
   done
 fi
+# seeded changes written by independent agents for this property (seeded/<id>/): every
+# one that the rules are known to report must still be reported (any rule of the property)
+for sd in seeded/$PROP-v*; do
+  [ -f "$sd/patch.diff" ] || continue
+  if grep -q "still not caught" "$sd/meta.json" 2>/dev/null; then continue; fi
+  total=$((total+1))
+  scratch=$(mktemp -d "${TMPDIR:-/tmp}/ndndcanary.XXXXXX")
+  mkdir -p "$scratch/repo" "$scratch/verif"
+  rsync -a --exclude .git "$REPO/" "$scratch/repo/"
+  cp known_findings.json "$scratch/verif/" 2>/dev/null
+  if (cd "$scratch/repo" && patch -p1 -s -f < "$VERIF/$sd/patch.diff" >/dev/null 2>&1); then
+    out=$(bin/ndndcheck -prop "$PROP" -tier quick -repo "$scratch/repo" -verif "$scratch/verif" 2>&1)
+    if printf '%s\n' "$out" | grep -q "^VIOLATION: "; then
+      fired=$((fired+1))
+    else
+      failed="$failed seed-$(basename "$sd")(not-reported)"
+    fi
+  else
+    total=$((total-1)); skipped="$skipped seed-$(basename "$sd")"
+  fi
+  rm -rf "$scratch"
+done
 exec bin/ndndcheck -prop "$PROP" -tier thorough -repo "$REPO" -verif "$VERIF" \
   -canary-total "$total" -canary-fired "$fired" -canary-failed "$(echo $failed)"
